@@ -185,7 +185,7 @@ func cmdCheck(args []string) int {
 			continue
 		}
 		t1 := time.Now()
-		spec := engine.RunSpec{Fn: rd.Fn, Setup: rd.Setup, Params: rd.Params, Fuel: rd.Fuel, Workers: *workers, Sched: rd.Sched, Preempt: rd.Preempt, Timeout: 100 * time.Minute, FuelViolation: rd.FuelViolation}
+		spec := engine.RunSpec{Fn: rd.Fn, Setup: rd.Setup, Params: rd.Params, Fuel: rd.Fuel, Workers: *workers, Sched: rd.Sched, Preempt: rd.Preempt, Timeout: 100 * time.Minute, StopAfterVio: 90 * time.Second, FuelViolation: rd.FuelViolation}
 		l, err := loadPkg(rd.Pkg)
 		if err != nil {
 			fmt.Fprintln(os.Stderr, "load:", err)
@@ -450,6 +450,12 @@ func cmdCheck(args []string) int {
 		return 1
 	}
 	if len(vacuous) > 0 {
+		return 2
+	}
+	if !exhaustive {
+		// some paths ended inconclusive / unsupported / out of budget: the property was neither shown to
+		// hold within the bounds nor violated; never reported as success
+		fmt.Printf("UNDECIDED property=%s: exploration incomplete (see INCONCLUSIVE/UNSUPPORTED lines above); no verdict\n", id)
 		return 2
 	}
 	return 0
